@@ -594,13 +594,21 @@ def table_row_swapped_jw(row, primary_ops: List, op2idx: Dict):
     op2: Op = primary_ops[row[2]]
 
     # remember: all possible operators: I Z + -
+    # both the long and the short names of the symbols are in use (``qc_model`` uses the short ones)
+    sigma_plus = ("sigma_+", "+")
+    sigma_minus = ("sigma_-", "-")
+    sigma_z = ("sigma_z", "Z", "z")
+
+    def count(op: Op, names):
+        return sum(op.split_symbol.count(name) for name in names)
+
     # new sigma_z produced for dof1 by op2
-    op1_new_sigma_z = (op1.split_symbol.count("sigma_+") + op1.split_symbol.count("sigma_-")) % 2
+    op1_new_sigma_z = (count(op1, sigma_plus) + count(op1, sigma_minus)) % 2
     # similar except by op2
-    op2_new_sigma_z = (op2.split_symbol.count("sigma_+") + op2.split_symbol.count("sigma_-")) % 2
+    op2_new_sigma_z = (count(op2, sigma_plus) + count(op2, sigma_minus)) % 2
     # determine the coefficient
-    op1_n_sigma_plus = op1.split_symbol.count("sigma_+")
-    op1_n_sigma_minus = op1.split_symbol.count("sigma_-")
+    op1_n_sigma_plus = count(op1, sigma_plus)
+    op1_n_sigma_minus = count(op1, sigma_minus)
     assert op1_n_sigma_plus in [0, 1]
     assert op1_n_sigma_minus in [0, 1]
     n_permutes = op2_new_sigma_z * (op1_n_sigma_plus + op1_n_sigma_minus)
@@ -611,12 +619,12 @@ def table_row_swapped_jw(row, primary_ops: List, op2idx: Dict):
         if symbol_list[0] == "I":
             assert len(symbol_list) == 1
             new_op = Op("sigma_z", op.dofs[0], qn=0)
-        elif symbol_list[0] == "sigma_z":
+        elif symbol_list[0] in sigma_z:
             if len(symbol_list) == 1:
                 new_op = Op.identity(op.dofs[0])
             else:
                 new_op = Op(" ".join(symbol_list[1:]), op.dofs[1:], qn=op.qn_list[1:])
-        elif symbol_list[0] == "sigma_+" or symbol_list[0] == "sigma_-":
+        elif symbol_list[0] in sigma_plus or symbol_list[0] in sigma_minus:
             new_op = Op("sigma_z " + op.symbol, [op.dofs[0]] + op.dofs, qn=[0] + op.qn_list)
         else:
             assert False
